@@ -134,7 +134,7 @@ for _k, _x in ADDENDA3.items():
     CLAIMED[_k] = (_a[0], _a[1] + _x, _a[2], _a[3])
 
 # additions after the sixth wave
-ADDENDA4 = {'C01': ' Script names include names with digits and operator characters.', 'C02': ' Values are compared relatively (or against the propagated rounding-error bound), never with an absolute epsilon; quotient chains run into the subnormal range.', 'C03': " Names with digits (q1, item 2); '<date> at <name>'.", 'C04': " A fifth of the session histories switch the session's language between the texts.", 'C10': ' A fifth of the cases run under a random number format; a third sub-check writes two to five names bound to durations side by side (open finding F152).', 'C14': ' One case in sixteen with a default zone is repeated after a rejected set_timezone call.', 'C18': " Tables: units named like magnitude suffixes; a rule result typed in a base and converted on the same line; histories also call set_date_rule with a language's own patterns."}
+ADDENDA4 = {'C01': ' Script names include names with digits and operator characters.', 'C02': ' Values are compared relatively (or against the propagated rounding-error bound), never with an absolute epsilon; quotient chains run into the subnormal range.', 'C03': " Names with digits (q1, item 2); '<date> at <name>'.", 'C04': " A fifth of the session histories switch the session's language between the texts.", 'C10': ' A fifth of the cases run under a random number format; a third sub-check writes two to five names bound to durations side by side.', 'C14': ' One case in sixteen with a default zone is repeated after a rejected set_timezone call.', 'C18': " Tables: units named like magnitude suffixes; a rule result typed in a base and converted on the same line; histories also call set_date_rule with a language's own patterns."}
 for _k, _x in ADDENDA4.items():
     _a = CLAIMED[_k]
     CLAIMED[_k] = (_a[0], _a[1] + _x, _a[2], _a[3])
